@@ -315,6 +315,7 @@ type evalCtx struct {
 	pkg      *types.Package
 	specFn   bool
 	inQuant  bool
+	inOld    bool
 }
 
 // heapWF records the type invariant of a value read from the heap by a specification expression
@@ -342,6 +343,8 @@ func specSort(s string) Sort {
 		return "Slice"
 	case "iface":
 		return "Iface"
+	case "str":
+		return "Int"
 	case "intset":
 		return "(Array Int Bool)"
 	case "intarr", "bytes":
@@ -493,6 +496,12 @@ func (c *evalCtx) ident(name string) (*Val, error) {
 				return nil, err
 			}
 			return c.ev(px)
+		}
+	}
+	// in a loop invariant a name denotes the loop-carried variable; under old() it denotes the entry value (parameter)
+	if c.hdr != nil && !c.inOld && fr.fn != nil {
+		if v := fr.lookupLocal(name, c.hdr, c.override, c.cur); v != nil {
+			return v, nil
 		}
 	}
 	if v, ok := fr.env[name]; ok {
@@ -811,7 +820,9 @@ func (c *evalCtx) call(x *SExpr) (*Val, error) {
 		if len(x.Args) != 1 {
 			return nil, fmt.Errorf("old takes one argument")
 		}
-		return c.with(c.old).ev(x.Args[0])
+		n := c.with(c.old)
+		n.inOld = true
+		return n.ev(x.Args[0])
 	}
 	args, err := c.evs(x.Args)
 	if err != nil {
